@@ -54,7 +54,7 @@ class Repo:
             if fn.endswith('.py'):
                 self._load(fn)
         self._mro_cache = {}
-        self.inlined, self.helpers = [], []
+        self.inlined, self.helpers, self.absorbed = [], [], set()
         if normalise and not os.environ.get('BISTAT_NO_INLINE'):
             from .normal import inline_helpers
             inline_helpers(self)
